@@ -676,6 +676,8 @@ macro_rules! impl_graph_traits {
                 &mut self,
                 n: <$graph_type<N, E, Ix> as GraphBase>::NodeId,
             ) -> Option<N> {
+                // nothing to do for a node that is not in the graph
+                self.graph.node_weight(n)?;
                 self.order_map.remove_node(n, &self.graph);
                 self.graph.remove_node(n)
             }
